@@ -24,31 +24,52 @@ static Bytes validReply(uint64_t rid, int reqNo, int e) {
     Chooser ch{[&](uint32_t) { return 0u; }, [&]() { return (uint8_t)(reqNo * 13 + 5); }}; BuildOpts o; o.fixedDoc = true; o.doc = hashOf(reqNo); o.wantRfc = 0; o.wantCal = 1; o.wantPub = 0; o.wantAuth = 1; o.maxChains = 1; o.fixedTime = true; o.t = 1500000000 + reqNo; o.fixedPubTime = true; o.p = o.t + 10 + e; o.calSalt = 4;
     Sig s = buildConsistent(ch, o); Header h; return sealV2(0x221, h, {aggrRespPayload(2, rid, true, 0, "", &s, 0)}, keyB(), 1);
 }
-struct Got { int responses = 0, errors = 0, notices = 0, others = 0; uint64_t pubTime = 0; int err = 0; std::vector<int> noticeErr; };
+struct Got { std::string othersWhat; int responses = 0, errors = 0, notices = 0, others = 0; uint64_t pubTime = 0; int err = 0; std::vector<int> noticeErr; };
 
 // one request through k endpoints with given outcomes, made visible in the given arrival order
 // prelude > 0: before the request under test, another HA service on the SAME context gets a request that is dropped while responses are still outstanding (service freed after prelude-1 runs)
-static void singleRequest(Case &c, int k, const int *outc, const int *order, std::string &desc, int prelude = 0) {
-    resetSim(); Ctx ctx;
+// config consolidation: each endpoint answers a configuration request with its own values
+struct CfgVals { bool has[5]; uint64_t v[5]; }; // signing: 0 maxLevel 1 period 2 maxRequests | extending: 2 maxRequests 3 calFirst 4 calLast
+static int g_cbCount = 0; static CfgVals g_last; static bool g_ext = false; static std::vector<CfgVals> g_calls; // every value handed to the application
+static int haConfCb(KSI_CTX *, KSI_Config *cf) { g_cbCount++; KSI_Integer *i = nullptr; memset(&g_last, 0, sizeof g_last);
+    if (!g_ext) { KSI_Config_getMaxLevel(cf, &i); if (i) { g_last.has[0] = true; g_last.v[0] = KSI_Integer_getUInt64(i); } i = nullptr; KSI_Config_getAggrPeriod(cf, &i); if (i) { g_last.has[1] = true; g_last.v[1] = KSI_Integer_getUInt64(i); } }
+    i = nullptr; KSI_Config_getMaxRequests(cf, &i); if (i) { g_last.has[2] = true; g_last.v[2] = KSI_Integer_getUInt64(i); }
+    if (g_ext) { i = nullptr; KSI_Config_getCalendarFirstTime(cf, &i); if (i) { g_last.has[3] = true; g_last.v[3] = KSI_Integer_getUInt64(i); } i = nullptr; KSI_Config_getCalendarLastTime(cf, &i); if (i) { g_last.has[4] = true; g_last.v[4] = KSI_Integer_getUInt64(i); } } g_calls.push_back(g_last); return KSI_OK; }
+// flavour: 0 = signing request, 1 = signing request that also carries a configuration request (the endpoints answer both parts), 2 = extending request with a publication time
+static const uint64_t kExtT = 1500000000ULL, kExtP = 1500003600ULL;
+static void singleRequest(Case &c, int k, const int *outc, const int *order, std::string &desc, int prelude = 0, int flavour = 0) {
+    resetSim(); Ctx ctx; if (flavour == 1) { c.cls("single:request-with-configuration-part"); desc += " +config-part"; } if (flavour == 2) { c.cls("single:extending-service"); desc += " extending"; }
     if (prelude > 0) { KSI_AsyncService *h0 = nullptr; KSI_SigningHighAvailabilityService_new(ctx, &h0); for (int e = 0; e < k; e++) KSI_AsyncService_addEndpoint(h0, ("ksi+tcp://" + hostOf(e) + ":" + std::to_string(3000 + e)).c_str(), kLogin.c_str(), kKey.c_str());
         KSI_AggregationReq *rq = nullptr; KSI_AggregationReq_new(ctx, &rq); KSI_DataHash *dh = nullptr; Bytes hb = hashOf(7); KSI_DataHash_fromImprint(ctx, hb.data(), hb.size(), &dh); KSI_AggregationReq_setRequestHash(rq, dh); KSI_AsyncHandle *h = nullptr; KSI_AsyncAggregationHandle_new(ctx, rq, &h);
         if (KSI_AsyncService_addRequest(h0, h) != KSI_OK) KSI_AsyncHandle_free(h); for (int r = 1; r < prelude; r++) { KSI_AsyncHandle *out = nullptr; size_t w = 0; KSI_AsyncService_run(h0, &out, &w); KSI_AsyncHandle_free(out); }
         KSI_AsyncService_free(h0); resetSim(); c.cls("history:earlier-request-dropped-in-flight"); desc += " after-dropped-request(" + num(prelude - 1) + " runs)"; }
-    KSI_AsyncService *has = nullptr; KSI_SigningHighAvailabilityService_new(ctx, &has);
+    KSI_AsyncService *has = nullptr; if (flavour == 2) KSI_ExtendingHighAvailabilityService_new(ctx, &has); else KSI_SigningHighAvailabilityService_new(ctx, &has); if (flavour == 1) { g_cbCount = 0; g_ext = false; g_calls.clear(); }
     sim::net().onConnect = [&](sim::Conn &cn) { int e = endpointOfConn(&cn); return (e >= 0 && outc[e] == OC_REFUSED) ? sim::CP_REFUSE : sim::CP_ACCEPT; };
     for (int e = 0; e < k; e++) KSI_AsyncService_addEndpoint(has, ("ksi+tcp://" + hostOf(e) + ":" + std::to_string(3000 + e)).c_str(), kLogin.c_str(), kKey.c_str());
-    KSI_AggregationReq *rq = nullptr; KSI_AggregationReq_new(ctx, &rq); KSI_DataHash *dh = nullptr; Bytes hb = hashOf(0); KSI_DataHash_fromImprint(ctx, hb.data(), hb.size(), &dh); KSI_AggregationReq_setRequestHash(rq, dh); KSI_AsyncHandle *h = nullptr; KSI_AsyncAggregationHandle_new(ctx, rq, &h);
+    if (flavour == 1 && (outc[0] + k) % 2 == 0) { KSI_AsyncService_setOption(has, KSI_ASYNC_OPT_PUSH_CONF_CALLBACK, (void *)haConfCb); c.cls("single:configuration-delivered-through-callback"); } // otherwise the configuration comes back as a handle of its own
+    KSI_AsyncHandle *h = nullptr;
+    if (flavour == 2) { KSI_ExtendReq *rq = nullptr; KSI_ExtendReq_new(ctx, &rq); KSI_Integer *ta = nullptr, *tp = nullptr; KSI_Integer_new(ctx, kExtT, &ta); KSI_Integer_new(ctx, kExtP, &tp); KSI_ExtendReq_setAggregationTime(rq, ta); KSI_ExtendReq_setPublicationTime(rq, tp); KSI_AsyncExtendHandle_new(ctx, rq, &h); }
+    else { KSI_AggregationReq *rq = nullptr; KSI_AggregationReq_new(ctx, &rq); KSI_DataHash *dh = nullptr; Bytes hb = hashOf(0); KSI_DataHash_fromImprint(ctx, hb.data(), hb.size(), &dh); KSI_AggregationReq_setRequestHash(rq, dh); if (flavour == 1) { KSI_Config *cf = nullptr; KSI_Config_new(ctx, &cf); KSI_AggregationReq_setConfig(rq, cf); } KSI_AsyncAggregationHandle_new(ctx, rq, &h); }
     int addRes = KSI_AsyncService_addRequest(has, h); if (addRes != KSI_OK) { KSI_AsyncHandle_free(h); VF_FAIL(c, "C15:add-refused", "HA addRequest failed res=" + num(addRes) + " although endpoints accept requests"); KSI_AsyncService_free(has); return; }
     Got g; std::vector<int> arrival; // endpoint indices in the order in which their outcome became visible to the client
     auto drainRuns = [&](int n) { for (int i = 0; i < n; i++) { KSI_AsyncHandle *out = nullptr; size_t w = 0; KSI_AsyncService_run(has, &out, &w); if (!out) continue; int st = 0; KSI_AsyncHandle_getState(out, &st);
-            if (st == KSI_ASYNC_STATE_RESPONSE_RECEIVED) { g.responses++; KSI_AggregationResp *rp = nullptr; KSI_AsyncHandle_getAggregationResp(out, &rp); KSI_CalendarHashChain *cc = nullptr; if (rp) KSI_AggregationResp_getCalendarChain(rp, &cc); KSI_Integer *pt = nullptr; if (cc) KSI_CalendarHashChain_getPublicationTime(cc, &pt); g.pubTime = KSI_Integer_getUInt64(pt); if (out != h) g.others++; }
-            else if (st == KSI_ASYNC_STATE_ERROR) { g.errors++; KSI_AsyncHandle_getError(out, &g.err); if (out != h) g.others++; } else if (st == KSI_ASYNC_STATE_ERROR_NOTICE) { g.notices++; int e = 0; KSI_AsyncHandle_getError(out, &e); g.noticeErr.push_back(e); } else g.others++;
+            if (st == KSI_ASYNC_STATE_RESPONSE_RECEIVED && flavour == 2) { g.responses++; KSI_ExtendResp *rp = nullptr; KSI_AsyncHandle_getExtendResp(out, &rp); KSI_CalendarHashChain *cc = nullptr; if (rp) KSI_ExtendResp_getCalendarHashChain(rp, &cc); KSI_DataHash *ih = nullptr; if (cc) KSI_CalendarHashChain_getInputHash(cc, &ih); const unsigned char *ip = nullptr; size_t il = 0; if (ih) KSI_DataHash_getImprint(ih, &ip, &il);
+                g.pubTime = 0; for (int e = 0; e < 3; e++) { Bytes hb = hashOf(40 + e); if (ip && il == hb.size() && !memcmp(ip, hb.data(), il)) g.pubTime = 1500000000ULL + 10 + (uint64_t)e; } KSI_Integer *pt = nullptr; if (cc) KSI_CalendarHashChain_getPublicationTime(cc, &pt); if (KSI_Integer_getUInt64(pt) != kExtP) g.pubTime = 1; /* a chain to another time than requested */ if (out != h) g.others++; }
+            else if (st == KSI_ASYNC_STATE_RESPONSE_RECEIVED) { g.responses++; KSI_AggregationResp *rp = nullptr; KSI_AsyncHandle_getAggregationResp(out, &rp); KSI_CalendarHashChain *cc = nullptr; if (rp) KSI_AggregationResp_getCalendarChain(rp, &cc); KSI_Integer *pt = nullptr; if (cc) KSI_CalendarHashChain_getPublicationTime(cc, &pt); g.pubTime = KSI_Integer_getUInt64(pt); if (out != h) g.others++; }
+            else if (st == KSI_ASYNC_STATE_ERROR) { g.errors++; KSI_AsyncHandle_getError(out, &g.err); if (out != h) g.others++; } else if (st == KSI_ASYNC_STATE_ERROR_NOTICE) { g.notices++; int e = 0; KSI_AsyncHandle_getError(out, &e); g.noticeErr.push_back(e); } else if (st == KSI_ASYNC_STATE_PUSH_CONFIG_RECEIVED && flavour == 1) { c.cls("single:configuration-delivered-as-handle"); /* the consolidated configuration, delivered as a handle of its own when no callback is installed */ } else { g.others++; g.othersWhat += "state" + num(st) + (out == h ? "(own)" : "(foreign)") + " "; }
             KSI_AsyncHandle_free(out); } };
     drainRuns(3); // connect + send everywhere; refused endpoints fail here
     for (int e = 0; e < k; e++) if (outc[e] == OC_REFUSED) arrival.push_back(e);
     for (int oi = 0; oi < 3; oi++) { int e = order[oi]; if (e >= k || outc[e] == OC_REFUSED) continue; sim::Conn *cn = nullptr; for (auto x : sim::net().conns) if (endpointOfConn(x) == e && !x->clientClosed) cn = x;
-        if (!cn) { continue; } Bytes rest; std::vector<Bytes> reqs = splitStream(cn->fromClient, rest); uint64_t rid = 0; if (!reqs.empty()) { ReqInfo q = parseRequest(reqs[0]); rid = q.reqId; if (!q.ok || q.hash != hashOf(0)) { VF_FAIL(c, "C15:forwarded-request-differs", "request forwarded to endpoint " + num(e) + " differs from the submitted one"); break; } } else { VF_FAIL(c, "C15:request-not-forwarded", "endpoint " + num(e) + " accepted the connection but never received the request"); break; }
+        if (!cn) { continue; } Bytes rest; std::vector<Bytes> reqs = splitStream(cn->fromClient, rest); uint64_t rid = 0; if (!reqs.empty()) { ReqInfo q; bool found = false, confSeen = false; for (auto &rb : reqs) { ReqInfo qi = parseRequest(rb); if (qi.ok && qi.confReq) confSeen = true; if (qi.ok && (flavour == 2 ? !qi.isAggr && qi.hasAggrTime : qi.hasHash) && !found) { q = qi; found = true; } } rid = q.reqId;
+            if (!found || (flavour == 2 ? (q.aggrTime != kExtT || !q.hasPubTime || q.pubTime != kExtP) : q.hash != hashOf(0)) || (flavour == 1 && !confSeen)) { VF_FAIL(c, flavour == 2 ? "C15:forwarded-request-differs:extend" : (flavour == 1 ? "C15:forwarded-request-differs:with-config" : "C15:forwarded-request-differs"), "request forwarded to endpoint " + num(e) + " differs from the submitted one" + (flavour == 2 && found ? " (aggregation time " + std::to_string(q.aggrTime) + ", publication time " + (q.hasPubTime ? std::to_string(q.pubTime) : std::string("absent")) + ")" : "") + " " + desc); break; } } else { VF_FAIL(c, "C15:request-not-forwarded", "endpoint " + num(e) + " accepted the connection but never received the request"); break; }
         Header hd; Bytes b;
+        if (flavour == 2) { CalChain cc; cc.pubTime = kExtP; cc.aggrTime = kExtT; cc.hasAggrTime = true; cc.inputHash = hashOf(40 + e); cc.links = coherentCalLinks(kExtT, kExtP, 4);
+            switch (outc[e]) { case OC_VALID: b = sealV2(0x321, hd, {extRespPayload(2, rid, true, 0, "", &cc, false, 0)}, keyB(), 1); break; case OC_STATUS: b = sealV2(0x321, hd, {extRespPayload(2, rid, true, 0x0101 + e, "no", nullptr, false, 0)}, keyB(), 1); break; case OC_ERROR_PDU: b = sealV2(0x321, hd, {errorPayload(2, false, 0x0300, "err")}, keyB(), 1); break; default: break; } }
+        else if (flavour == 1) { Tlv conf = aggrConfPayload(true, 10 + e, true, 1, true, 400, true, 100, {}); // the configuration part is answered together with the request part
+            switch (outc[e]) { case OC_VALID: { Chooser ch{[&](uint32_t) { return 0u; }, [&]() { return (uint8_t)5; }}; BuildOpts o; o.fixedDoc = true; o.doc = hashOf(0); o.wantRfc = 0; o.wantCal = 1; o.wantPub = 0; o.wantAuth = 1; o.maxChains = 1; o.fixedTime = true; o.t = 1500000000; o.fixedPubTime = true; o.p = o.t + 10 + e; o.calSalt = 4; Sig sg = buildConsistent(ch, o); b = sealV2(0x221, hd, {aggrRespPayload(2, rid, true, 0, "", &sg, 0), conf}, keyB(), 1); break; }
+                case OC_STATUS: b = sealV2(0x221, hd, {aggrRespPayload(2, rid, true, 0x0101 + e, "no", nullptr, 0), conf}, keyB(), 1); break; case OC_ERROR_PDU: b = sealV2(0x221, hd, {errorPayload(2, true, 0x0300, "err")}, keyB(), 1); break; default: break; } }
+        else
         switch (outc[e]) { case OC_VALID: b = validReply(rid, 0, e); break; case OC_STATUS: b = sealV2(0x221, hd, {aggrRespPayload(2, rid, true, 0x0101 + e, "no", nullptr, 0)}, keyB(), 1); break; case OC_ERROR_PDU: b = sealV2(0x221, hd, {errorPayload(2, true, 0x0300, "err")}, keyB(), 1); break; default: break; }
         if (!b.empty()) cn->toClient.insert(cn->toClient.end(), b.begin(), b.end()); if (outc[e] == OC_CLOSED) cn->peerClosed = true;
         if (outc[e] == OC_TIMEOUT) continue; // becomes visible only when the clock passes the receive timeout (below)
@@ -58,7 +79,7 @@ static void singleRequest(Case &c, int k, const int *outc, const int *order, std
     int firstValid = -1; for (int e : arrival) if (outc[e] == OC_VALID) { firstValid = e; break; } int failures = 0; for (int e = 0; e < k; e++) if (outc[e] != OC_VALID) failures++;
     if (!c.fail) {
         if (g.responses + g.errors != 1) VF_FAIL(c, g.responses + g.errors == 0 ? "C15:request-not-completed" : "C15:request-completed-more-than-once", "the request was completed " + num(g.responses + g.errors) + " times (" + num(g.responses) + " responses, " + num(g.errors) + " errors) " + desc);
-        else if (g.others) VF_FAIL(c, "C15:foreign-handle-returned", "a handle other than the submitted request was returned in a final state " + desc);
+        else if (g.others) VF_FAIL(c, "C15:foreign-handle-returned", "a handle other than the submitted request was returned in a final state " + g.othersWhat + desc);
         else if (firstValid >= 0) { if (!g.responses) VF_FAIL(c, "C15:valid-reply-but-error", "an endpoint replied validly but the request ended with error " + num(g.err) + " " + desc); else if (g.pubTime != 1500000000ULL + 10 + (uint64_t)firstValid) VF_FAIL(c, "C15:not-the-first-valid-response", "the delivered response is not the first valid one in arrival order " + desc); }
         else { if (g.responses) VF_FAIL(c, "C15:response-without-valid-reply", "a response was delivered although no endpoint replied validly " + desc); }
         if (!c.fail && g.notices > failures) VF_FAIL(c, "C15:too-many-error-notices", num(g.notices) + " error notices for " + num(failures) + " failing endpoints " + desc);
@@ -67,13 +88,6 @@ static void singleRequest(Case &c, int k, const int *outc, const int *order, std
     KSI_AsyncService_free(has);
 }
 
-// config consolidation: each endpoint answers a configuration request with its own values
-struct CfgVals { bool has[5]; uint64_t v[5]; }; // signing: 0 maxLevel 1 period 2 maxRequests | extending: 2 maxRequests 3 calFirst 4 calLast
-static int g_cbCount = 0; static CfgVals g_last; static bool g_ext = false; static std::vector<CfgVals> g_calls; // every value handed to the application
-static int haConfCb(KSI_CTX *, KSI_Config *cf) { g_cbCount++; KSI_Integer *i = nullptr; memset(&g_last, 0, sizeof g_last);
-    if (!g_ext) { KSI_Config_getMaxLevel(cf, &i); if (i) { g_last.has[0] = true; g_last.v[0] = KSI_Integer_getUInt64(i); } i = nullptr; KSI_Config_getAggrPeriod(cf, &i); if (i) { g_last.has[1] = true; g_last.v[1] = KSI_Integer_getUInt64(i); } }
-    i = nullptr; KSI_Config_getMaxRequests(cf, &i); if (i) { g_last.has[2] = true; g_last.v[2] = KSI_Integer_getUInt64(i); }
-    if (g_ext) { i = nullptr; KSI_Config_getCalendarFirstTime(cf, &i); if (i) { g_last.has[3] = true; g_last.v[3] = KSI_Integer_getUInt64(i); } i = nullptr; KSI_Config_getCalendarLastTime(cf, &i); if (i) { g_last.has[4] = true; g_last.v[4] = KSI_Integer_getUInt64(i); } } g_calls.push_back(g_last); return KSI_OK; }
 static bool inRange(int f, uint64_t v) { switch (f) { case 0: return v >= 1 && v <= 20; case 1: return v >= 100 && v <= 20000; case 2: return v >= 1 && v <= 16000; default: return v >= 1136073600ULL; } }
 static CfgVals refFold(const std::vector<CfgVals> &vs, bool ext) { CfgVals r; memset(&r, 0, sizeof r); for (auto &x : vs) for (int f = 0; f < 5; f++) { if ((ext && f < 2) || (!ext && f > 2)) continue; if (!x.has[f] || !inRange(f, x.v[f])) continue; bool smaller = f == 1 || f == 3; if (!r.has[f] || (smaller ? x.v[f] < r.v[f] : x.v[f] > r.v[f])) { r.has[f] = true; r.v[f] = x.v[f]; } } return r; }
 static CfgVals runConfig(Case &c, bool ext, int k, const std::vector<CfgVals> &vals, const int *order, bool unsolicited = false) {
@@ -98,7 +112,7 @@ static CfgVals runConfig(Case &c, bool ext, int k, const std::vector<CfgVals> &v
 void harness_case(Dec &d, Case &c) {
     unsigned part = d.pick(3);
     if (part == 0) { int k = 1 + (int)d.pick(3); int outc[3], order[3] = {0, 1, 2}; for (int e = 0; e < 3; e++) outc[e] = (int)d.pick(OC_COUNT); unsigned perm = d.pick(6); int p3[6][3] = {{0, 1, 2}, {0, 2, 1}, {1, 0, 2}, {1, 2, 0}, {2, 0, 1}, {2, 1, 0}}; for (int i = 0; i < 3; i++) order[i] = p3[perm][i];
-        std::string desc = "k=" + num(k) + " outcomes="; for (int e = 0; e < k; e++) desc += std::string(kOutcName[outc[e]]) + ","; desc += " order=" + num(order[0]) + num(order[1]) + num(order[2]); c.desc = "single " + desc; bool differ = false; for (int e = 1; e < k; e++) if (outc[e] != outc[0]) differ = true; c.nontrivial = k >= 2 && differ; int prelude = d.pick(3) == 0 ? 1 + (int)d.pick(3) : 0; singleRequest(c, k, outc, order, desc, prelude); c.desc = "single " + desc; c.cls("endpoints:" + num(k)); return; }
+        std::string desc = "k=" + num(k) + " outcomes="; for (int e = 0; e < k; e++) desc += std::string(kOutcName[outc[e]]) + ","; desc += " order=" + num(order[0]) + num(order[1]) + num(order[2]); c.desc = "single " + desc; bool differ = false; for (int e = 1; e < k; e++) if (outc[e] != outc[0]) differ = true; c.nontrivial = k >= 2 && differ; int prelude = d.pick(3) == 0 ? 1 + (int)d.pick(3) : 0; unsigned fl = d.pick(4); int flavour = fl == 1 ? 1 : (fl == 2 ? 2 : 0); /* drawn last: older replay files decode to the plain signing request */ singleRequest(c, k, outc, order, desc, prelude, flavour); c.desc = "single " + desc; c.cls("endpoints:" + num(k)); return; }
     if (part == 1) { // two requests, cache size 1: endpoint 0 stays silent on request 1 (answered by endpoint 1), so it rejects request 2 with 'cache full'; request 2 then depends on endpoint 1 alone
         resetSim(); Ctx ctx; KSI_AsyncService *has = nullptr; KSI_SigningHighAvailabilityService_new(ctx, &has); for (int e = 0; e < 2; e++) KSI_AsyncService_addEndpoint(has, ("ksi+tcp://" + hostOf(e) + ":" + std::to_string(3000 + e)).c_str(), kLogin.c_str(), kKey.c_str());
         int outc2 = (int)d.pick(3); // outcome of endpoint 1 for request 2: valid / error status / closed
@@ -127,10 +141,10 @@ void harness_case(Dec &d, Case &c) {
 // exhaustive: every outcome vector (6^k) x every arrival order for one request, k = 1..3
 void harness_exh_case(const uint8_t *enc, size_t n, Case &c) {
     if (n < 5) { c.skip("short"); return; } int k = 1 + enc[0] % 3; int outc[3] = {enc[1] % OC_COUNT, enc[2] % OC_COUNT, enc[3] % OC_COUNT}; int p3[6][3] = {{0, 1, 2}, {0, 2, 1}, {1, 0, 2}, {1, 2, 0}, {2, 0, 1}, {2, 1, 0}}; int order[3]; for (int i = 0; i < 3; i++) order[i] = p3[enc[4] % 6][i];
-    std::string desc = "k=" + num(k) + " outcomes="; for (int e = 0; e < k; e++) desc += std::string(kOutcName[outc[e]]) + ","; desc += " order=" + num(order[0]) + num(order[1]) + num(order[2]); c.desc = "table " + desc; bool differ = false; for (int e = 1; e < k; e++) if (outc[e] != outc[0]) differ = true; c.nontrivial = k >= 2 && differ; singleRequest(c, k, outc, order, desc, n > 5 ? enc[5] % 4 : 0); c.desc = "table " + desc;
+    std::string desc = "k=" + num(k) + " outcomes="; for (int e = 0; e < k; e++) desc += std::string(kOutcName[outc[e]]) + ","; desc += " order=" + num(order[0]) + num(order[1]) + num(order[2]); c.desc = "table " + desc; bool differ = false; for (int e = 1; e < k; e++) if (outc[e] != outc[0]) differ = true; c.nontrivial = k >= 2 && differ; singleRequest(c, k, outc, order, desc, n > 5 ? enc[5] % 4 : 0, n > 6 ? enc[6] % 3 : 0); c.desc = "table " + desc;
 }
 void harness_exhaustive(int shard, int nshards) {
     uint64_t cnt = 0; for (int k = 1; k <= 3; k++) { int total = 1; for (int i = 0; i < k; i++) total *= OC_COUNT; int orders = k == 1 ? 1 : (k == 2 ? 2 : 6);
-        for (int v = 0; v < total; v++) for (int o = 0; o < orders; o++) for (int pre = 0; pre <= 2; pre += 2) { cnt++; if ((int)(cnt % (uint64_t)nshards) != shard) continue; int x = v; uint8_t oc[3] = {0, 0, 0}; for (int i = 0; i < k; i++) { oc[i] = (uint8_t)(x % OC_COUNT); x /= OC_COUNT; } uint8_t perm = k == 2 ? (o ? 2 : 0) : (uint8_t)o; if (vf::runExh(Bytes{(uint8_t)(k - 1), oc[0], oc[1], oc[2], perm, (uint8_t)pre})) return; } }
-    if (shard == 0) vf::stats().exhaustive["single request: every outcome vector over 6 outcomes x every arrival order, 1..3 endpoints x {fresh context, context on which an earlier request was dropped in flight}"] = cnt;
+        for (int v = 0; v < total; v++) for (int o = 0; o < orders; o++) for (int pre = 0; pre <= 2; pre += 2) for (int fl = 0; fl < 3; fl++) { if (fl && pre) continue; cnt++; if ((int)(cnt % (uint64_t)nshards) != shard) continue; int x = v; uint8_t oc[3] = {0, 0, 0}; for (int i = 0; i < k; i++) { oc[i] = (uint8_t)(x % OC_COUNT); x /= OC_COUNT; } uint8_t perm = k == 2 ? (o ? 2 : 0) : (uint8_t)o; if (vf::runExh(Bytes{(uint8_t)(k - 1), oc[0], oc[1], oc[2], perm, (uint8_t)pre, (uint8_t)fl})) return; } }
+    if (shard == 0) vf::stats().exhaustive["single request: every outcome vector over 6 outcomes x every arrival order, 1..3 endpoints x {fresh context, context on which an earlier request was dropped in flight; signing request, signing request with a configuration part, extending request with publication time}"] = cnt;
 }
